@@ -467,15 +467,27 @@ func sortedKeys[V any](m map[string]V) []string {
 
 // structTypeFor builds, with reflect.StructOf, the struct a user would declare for typ.
 func structTypeFor(typ jsonapi.Type) reflect.Type {
+	return structTypeForID(typ, (len(typ.Attrs)+2*len(typ.Rels))%3)
+}
+
+// structTypeForID: idMode 0 a plain string ID, 1 an ID promoted from an embedded struct, 2 an
+// ID of a defined string type
+func structTypeForID(typ jsonapi.Type, idMode int) reflect.Type {
 	idField := reflect.StructField{
 		Name: "ID", Type: reflect.TypeOf(""),
 		Tag: reflect.StructTag(fmt.Sprintf(`json:"id" api:"%s"`, typ.Name)),
 	}
 	fields := []reflect.StructField{idField}
-	if (len(typ.Attrs)+2*len(typ.Rels))%3 == 1 {
+	if idMode == 1 {
 		// a third of the shapes declare the ID in an embedded struct (a common Base type):
 		// the library finds it with FieldByName and it behaves like a directly declared ID
 		fields = []reflect.StructField{{Name: "Base", Type: reflect.StructOf([]reflect.StructField{idField}), Anonymous: true}}
+	}
+	if idMode == 2 {
+		// another third declare the ID with a defined string type (type UserID string): the
+		// library reads and writes it through its kind, like a plain string
+		idField.Type = reflect.TypeOf(namedStr(""))
+		fields = []reflect.StructField{idField}
 	}
 	n := 0
 	// decoy: a field of the same Go type carrying the same json tag but no api tag, declared
